@@ -42,6 +42,8 @@ def run(rep, tier, seed, replay):
                        "validating every logged poll (capacity offered, bytes taken) against ThriftAsync",
                        "generated decode_async joins via the generated-code corpus (C02)"]
     eof = gencheck.async_eof(rep, tier, seed)
+    # every protocol call of emitted decode_async under seeded schedules, validated against the protocol model
+    eof.update(gencheck.decode_traces(rep, "C12", tier, seed))
     rep.cov.update(gencheck.add_tagged(rep, "C12", tier, seed))
     rep.cov.update(eof)
     return "model_checking"
